@@ -61,43 +61,67 @@ def signature(sc, d):
         sc.get("cls"), d.get("ty"), d.get("reader"), d.get("expected"), got)
 
 
-def replay_scenarios(ck, binary, name, scenarios, extra_args=()):
+def run_codec(binary, path_tag, scenarios, extra_args=()):
+    """Runs the harness on `scenarios`; returns (summary, [(index, detail)])."""
     wd = vf.workdir("c26")
-    path = os.path.join(wd, "%s-%d.ndjson" % (name, os.getpid()))
+    path = os.path.join(wd, "%s-%d.ndjson" % (path_tag, os.getpid()))
     vf.write_ndjson(path, scenarios)
     try:
-        rc, out, err = vf.run_harness(binary, ["codec", path] + list(extra_args), timeout=1500)
+        rc, out, err = vf.run_harness(binary, ["codec", path] + list(extra_args), timeout=1500,
+                                       env={"RUST_BACKTRACE": "0"})
     finally:
         if os.path.exists(path):
             os.unlink(path)
     if rc != 0:
         raise vf.ToolError("harness codec failed rc=%d: %s" % (rc, err[-2000:]))
-    summary = None
+    summary, found = None, []
     for ln in out.splitlines():
         d = json.loads(ln)
         if d.get("summary"):
             summary = d
-            continue
-        sc = scenarios[d["i"]]
-        det = d["detail"]
-        if det.get("stage") == "harness":
-            raise vf.ToolError("harness cannot run scenario %d (%s): %s" % (d["i"], det.get("ty"), det.get("error")))
-        # the scenario is stored whole: a replay file must reproduce the case exactly
-        ck.violation(signature(sc, det), json.dumps(det)[:1500], {"engine": "codec", "scenario": sc, "detail": det})
+        else:
+            found.append((d["i"], d["detail"]))
     if summary is None:
         raise vf.ToolError("harness produced no summary")
     if summary["scenarios"] != len(scenarios):
         raise vf.ToolError("harness replayed %d of %d scenarios" % (summary["scenarios"], len(scenarios)))
-    if summary.get("stopped_early") and not ck.violations:
+    return summary, found
+
+
+def replay_scenarios(ck, binary, name, scenarios, extra_args=()):
+    """Replays on the real code.  The cases that reach an oversized length prefix (they currently kill the
+    worker process, one fork each, and a fork is the dearer the bigger the forking process) go in a file of
+    their own."""
+    t0 = time.time()
+    groups = [[i for i, s in enumerate(scenarios) if "big" not in s["fl"]],
+              [i for i, s in enumerate(scenarios) if "big" in s["fl"]]]
+    if "--skip-big" in extra_args:
+        groups[1] = []
+    total = dict(scenarios=0, evaluations=0, mismatches=0, worker_forks=0, aborts=0, hint_inexact=0)
+    stopped = False
+    for g, idx in enumerate(groups):
+        if not idx:
+            continue
+        summary, found = run_codec(binary, "%s-%d" % (name, g), [scenarios[i] for i in idx])
+        for k in total:
+            total[k] += summary[k]
+        stopped = stopped or summary.get("stopped_early")
+        for j, det in found:
+            sc = scenarios[idx[j]]
+            if det.get("stage") == "harness":
+                raise vf.ToolError("harness cannot run scenario %d (%s): %s" % (idx[j], det.get("ty"), det.get("error")))
+            # the scenario is stored whole: a replay file must reproduce the case exactly
+            ck.violation(signature(sc, det), json.dumps(det)[:1500], {"engine": "codec", "scenario": sc, "detail": det})
+    if stopped and not ck.violations:
         raise vf.ToolError("harness stopped early after repeated aborts but no violation was recorded")
-    ck.traces += summary["scenarios"]
-    ck.evaluations += summary["evaluations"]
-    vf.log("[c26] replay %s: %d scenarios, %d real calls, %d mismatches, %d forks" % (
-        name, summary["scenarios"], summary["evaluations"], summary["mismatches"], summary["worker_forks"]))
-    ck.part(name, scenarios=summary["scenarios"], real_calls=summary["evaluations"], mismatches=summary["mismatches"],
-            worker_forks=summary["worker_forks"], aborts=summary["aborts"],
-            types=len({type_name(s["ty"]) for s in scenarios}), size_hints_not_exact=summary["hint_inexact"])
-    return summary
+    ck.traces += total["scenarios"]
+    ck.evaluations += total["evaluations"]
+    vf.log("[c26] replay %s: %d scenarios, %d real calls, %d mismatches, %d forks, %.1fs" % (
+        name, total["scenarios"], total["evaluations"], total["mismatches"], total["worker_forks"], time.time() - t0))
+    ck.part(name, scenarios=total["scenarios"], real_calls=total["evaluations"], mismatches=total["mismatches"],
+            worker_forks=total["worker_forks"], aborts=total["aborts"],
+            types=len({type_name(s["ty"]) for s in scenarios}), size_hints_not_exact=total["hint_inexact"])
+    return total
 
 
 def type_name(d):
@@ -224,29 +248,12 @@ def run(ck, tier):
     ck.sample(next(s for s in codec if s["kind"] == "rt" and s["ty"][0] == "tuple" and len(s["ty"][1]) == 6))
 
     # ---- replay on the real code ----
-    # Every case reaching a length prefix >= 2^20 currently kills the worker (known finding) and costs a fork
-    # (tens of ms in the sandbox).  The quick tier
-    # replays all raw ones and a seeded sample of three per type; the thorough tier replays them all.
-    skipped_big = 0
-    if not thorough:
-        by_type = {}
-        for i, s in enumerate(codec):
-            if "big" in s["fl"] and s["kind"] != "raw":
-                by_type.setdefault(type_name(s["ty"]), []).append(i)
-        drop = set()
-        for t in sorted(by_type):
-            idx = by_type[t]
-            keep = set(ck.rng.sample(idx, min(3, len(idx))))
-            drop |= set(idx) - keep
-        skipped_big = len(drop)
-        codec = [s for i, s in enumerate(codec) if i not in drop]
     replay_scenarios(ck, binary, "vint", vint)
     replay_scenarios(ck, binary, "codec", codec)
     if binary_dev:      # the oversized-prefix cases already ran above
         replay_scenarios(ck, binary_dev, "vint-dev-profile", vint)
         replay_scenarios(ck, binary_dev, "codec-dev-profile", codec, ["--skip-big"])
-    ck.part("codec", case_kinds=kinds, expected_verdicts=verdicts, oversized_length_prefix_cases=nbig,
-            oversized_length_prefix_cases_not_replayed_in_quick_tier=skipped_big)
+    ck.part("codec", case_kinds=kinds, expected_verdicts=verdicts, oversized_length_prefix_cases=nbig)
 
     ck.bounds = {
         "vint_values": "all v < %d; 2^(7k)-1,2^(7k),2^(7k)+1 k=1..9; 2^(8j)-1,2^(8j),2^(8j)+1 j=1..7; 2^63; 2^64-2; 2^64-1; %d seeded" % (small, nrand),
